@@ -47,10 +47,12 @@ int main(int argc, char** argv) {
   for (long x : pts) if (x >= 0 && x < (1l << 47)) { chk(x, worst); ++evals; }
   // atan2 on structured / random pairs
   std::vector<long> vs = {0, 1, 2, 3, 65536, 65535, 65537, 102944, 205887, (1l << 47) - 1, (1l << 46), (1l << 31), (1l << 32) + 1, 159744, 28672};
-  for (int i = 0; i < 400; i++) { int sh = g() % 47; vs.push_back((long)(g() >> 17) >> sh); }
+  for (int i = 0; i < (tier ? 3000 : 400); i++) { int sh = g() % 47; vs.push_back((long)(g() >> 17) >> sh); }
   size_t n0 = vs.size(); for (size_t i = 0; i < n0; i++) vs.push_back(-vs[i]);
   long double worst2 = 0;
-  for (long y : vs) for (long x : vs) { ++evals; fixed_t r = atan2(as_fixed(y), as_fixed(x));
+  const long nv = (long)vs.size();
+  #pragma omp parallel for schedule(dynamic, 16) reduction(max:worst2) reduction(+:evals)
+  for (long yi = 0; yi < nv; ++yi) for (long x : vs) { long y = vs[yi]; ++evals; fixed_t r = atan2(as_fixed(y), as_fixed(x));
     if (x == 0 && y == 0) { if (!isnan(r)) fail("atan2(0,0) not NaN", y, x, r.v); continue; }
     if (isnan(r)) { fail("atan2 NaN off the origin", y, x, r.v); continue; }
     long double t = atan2l((long double)y, (long double)x), e = fabsl((long double)r.v / 65536 - t);
